@@ -20,15 +20,22 @@ ASSUMES = [
     "dialect already negotiated (currentDialect is b'pb' or b'none'); negotiation is not part of the property",
     "feeding stops at the first exception escaping dataReceived (the transport drops the connection)",
 ]
-TRUSTED = ["zlib.adler32 (long byte strings are compared as length+adler32 on both sides)"]
+TRUSTED = ["zlib.adler32 (long byte strings are compared as length+adler32 on both sides)",
+           "harness/py2lean.py (translator: spread/banana.py int2b128 and b1282int are regenerated into lean/Generated/Banana.lean on "
+           "every run — stream(e) calls as the output bytes in order, the assert as Except PyErr, the `while integer:` loop (& 0x7F, "
+           ">> 7) as a recursive function terminating by integer, the for-loop over iterbytes(st) as List.foldl of the generated "
+           "loop body; translator-regenerated kernel proved equal to the model: TwistedProps.C44.gen_int2b128, gen_b1282int; "
+           "round trip restated over the regenerated definitions: gen_b128_roundtrip)"]
 MANIFEST = {
     "text": "Lean theorems (TwistedProps/C44.lean): for every expression within the limits, every dialect and every cutting of "
             "the encoded stream into deliveries, the streaming decoder delivers exactly the list-ified expression "
             "(segmentation-independence theorem for the dataReceived loop + batch round-trip by induction over the expression); "
             "encode refuses exactly the out-of-limit values; over-long prefixes and oversized LIST/STRING lengths raise BananaError. "
-            "Model tied to banana.py by differential runs of encode / decode / round-trip.",
+            "int2b128 / b1282int are regenerated from banana.py by the translator on every run and proved equal to the model's "
+            "(gen_int2b128, gen_b1282int). Model tied to banana.py by differential runs of encode / decode / round-trip.",
     "note": "trusts Lean kernel, the hand-written model of banana.py (differentially tied), struct's IEEE-754 packing",
-    "technique": "Lean 4 proof (stream/batch equivalence of the decoder loop + structural induction) + differential tie",
+    "technique": "Lean 4 proof (stream/batch equivalence of the decoder loop + structural induction) + differential tie + "
+                 "translator-regenerated kernel (int2b128, b1282int) proved equal to the model",
     "design_ref": "DESIGN.md §7 C44",
 }
 
